@@ -274,7 +274,8 @@ B build(FuzzedDataProvider &fdp)
                     B a = pick();
                     // generator precondition: floor/ceiling/truncate of a non-finite double kill the process (SIGFPE in
                     // mpz_set_d, recorded as KF-C18-03); building the object is not what C20 tests
-                    if ((f == (F1)floor || f == (F1)ceiling || f == (F1)truncate) && nonfinite_double_inside(a))
+                    if ((f == (F1)floor || f == (F1)ceiling || f == (F1)truncate || f == (F1)primepi || f == (F1)primorial)
+                        && nonfinite_double_inside(a))
                         break;
                     if (small_for_function(a))
                         r = f(a);
@@ -611,7 +612,7 @@ bool nonfinite_double_inside(const B &b)
 }
 bool has_rounding_node(const B &b)
 {
-    if (is_a<Floor>(*b) || is_a<Ceiling>(*b) || is_a<Truncate>(*b))
+    if (is_a<Floor>(*b) || is_a<Ceiling>(*b) || is_a<Truncate>(*b) || is_a<PrimePi>(*b) || is_a<Primorial>(*b))
         return true;
     for (auto &a : b->get_args())
         if (has_rounding_node(a))
